@@ -188,7 +188,7 @@ pub fn run_schedule(rec: &mut Rec, seed: u64, run: u64, kind: &str, line: &str, 
     let v: Value = serde_json::from_str(line).unwrap();
     let ops = v["ops"].as_array().unwrap();
     let dur = DURS[table % DURS.len()];
-    let goff = [3 * DAY / 4, 1, 10 * DAY][(table / DURS.len()) % 3];
+    let goff = [3 * DAY / 4 + 879_305_533, 1, 10 * DAY + 500_000_000][(table / DURS.len()) % 3];
     let mut p = EpochRun::new(kind, dur, goff);
     reset(rec, &p, seed, run, Some(line), table);
     for (i, o) in ops.iter().enumerate() {
@@ -203,7 +203,7 @@ pub fn run_random(rec: &mut Rec, seed: u64, run: u64, kind: &str, nops: usize) {
     let mut r = gen::rng(seed, run ^ 0x4550_4f43);
     let table = r.gen_range(0..9usize);
     let dur = DURS[table % 3];
-    let goff = [3 * DAY / 4, 1, 10 * DAY][(table / 3) % 3];
+    let goff = [3 * DAY / 4 + 879_305_533, 1, 10 * DAY + 500_000_000][(table / 3) % 3];
     let mut p = EpochRun::new(kind, dur, goff);
     reset(rec, &p, seed, run, None, table);
     for step in 0..nops {
